@@ -1017,3 +1017,92 @@ Definition client_ok (c : ccfg) (e : env) (key : str) (header : str) (proto : op
     ((vals K_PROTOCOL fs = [] /\ proto = None) \/
      (exists pv, vals K_PROTOCOL fs = [pv] /\
         ((strip pv = [] /\ proto = None) \/ (strip pv <> [] /\ proto = Some (strip pv) /\ In (strip pv) (c_protocols c))))).
+
+(* ---- the same predicates over an arbitrary division of the header block into lines ---- *)
+Definition fields_from (ls : list str) : list (str * str) := flat_map field_of_line (tl ls).
+Definition status_from (ls : list str) : str := strip (hd [] ls).
+
+Definition rfc4_ok_on (c : scfg) (e : env) (ls : list str) : Prop :=
+  let fs := fields_from ls in
+  exists m u v ver,
+    split_ws (status_from ls) = [m; u; v] /\ m = GET_S /\ (exists b, In b http_versions /\ v = HTTP_U ++ 47 :: b) /\
+    (exists path query, urlparse_o e u = UriOk path query [] /\ parse_qs_o e query <> None) /\
+    (exists hv, vals K_HOST fs = [hv] /\ host_ok (s_external_port c) hv) /\
+    (exists uv t, In uv (vals K_UPGRADE fs) /\ In t (split_on 44 uv) /\ lower (strip t) = WEBSOCKET_S) /\
+    (exists cv t, In cv (vals K_CONNECTION fs) /\ In t (split_on 44 cv) /\ lower (strip t) = UPGRADE_S) /\
+    (exists vv, vals K_VERSION fs = [vv] /\ py_int vv = Some ver /\ In ver (s_versions c)) /\
+    NoDup (flat_map tokens (vals K_PROTOCOL fs)) /\
+    (vals (origin_key ver) fs = [] \/
+     exists ov o, vals (origin_key ver) fs = [ov] /\ url_to_origin (urlsplit_o e) (strip ov) = Some o /\ origin_permitted c o) /\
+    (exists kv, vals K_KEY fs = [kv] /\ lenN (strip kv) = key_length /\
+                exists body, strip kv = body ++ key_suffix /\ Forall (fun ch => In ch key_alphabet) body) /\
+    (length (vals K_EXTENSIONS fs) <= 1)%nat /\
+    limit_ok c.
+
+Definition client_ok_on (c : ccfg) (e : env) (key : str) (ls : list str) (proto : option str) (exts : list str) : Prop :=
+  let fs := fields_from ls in
+  exists ver code more,
+    split_ws (status_from ls) = ver :: code :: more /\ ver = HTTP11_S /\ py_int code = Some 101%Z /\
+    (exists uv, vals K_UPGRADE fs = [uv] /\ lower (strip uv) = WEBSOCKET_S) /\
+    (exists cv t, In cv (vals K_CONNECTION fs) /\ In t (split_on 44 cv) /\ lower (strip t) = UPGRADE_S) /\
+    (exists av, vals K_ACCEPT fs = [av] /\ strip av = accept_of (sha1 e) key) /\
+    ((vals K_EXTENSIONS fs = [] /\ exts = []) \/
+     (exists xv, vals K_EXTENSIONS fs = [xv] /\
+        ((parse_extensions_header xv = [] /\ exts = []) \/
+         exists n p, parse_extensions_header xv = [(n, p)] /\ In n pmce_names /\ pmce_response e n p = ExtAccepted /\ exts = [n]))) /\
+    ((vals K_PROTOCOL fs = [] /\ proto = None) \/
+     (exists pv, vals K_PROTOCOL fs = [pv] /\
+        ((strip pv = [] /\ proto = None) \/ (strip pv <> [] /\ proto = Some (strip pv) /\ In (strip pv) (c_protocols c))))).
+
+(* RFC 7230 line structure: a line ends with CR LF; a bare LF is tolerated (section 3.5); NOTHING else ends a line.
+   ([cur] is the current line reversed; like splitlines, no empty last line is produced) *)
+Definition drop_cr (cur : str) : str := match cur with c :: t => if c =? 13 then t else cur | [] => [] end.
+Fixpoint rfc_lines_aux (cur : str) (s : str) : list str :=
+  match s with
+  | [] => match cur with [] => [] | _ => [rev cur] end
+  | c :: r => if c =? 10 then rev (drop_cr cur) :: rfc_lines_aux [] r else rfc_lines_aux (c :: cur) r
+  end.
+Definition rfc_lines (s : str) : list str := rfc_lines_aux [] s.
+
+(* the line boundaries of str.splitlines that are not CR / LF (from the generated table: VT FF FS GS RS NEL) *)
+Definition odd_breaks : list N := filter (fun c => negb (c =? 10) && negb (c =? 13)) py_linebreak.
+Fixpoint cr_ok (s : str) : bool :=       (* every CR is immediately followed by LF *)
+  match s with
+  | [] => true
+  | c :: r => if c =? 13 then match r with d :: _ => (d =? 10) && cr_ok r | [] => false end else cr_ok r
+  end.
+Definition crlf_only (s : str) : Prop := Forall (fun c => ~ In c odd_breaks) s /\ cr_ok s = true.
+
+(* ------------------------------------------------------------------------------------------ *)
+(* several connections on one server factory: the connection limit                             *)
+(* _connectionMade: countConnections += 1; processHandshake compares it with maxConnections;
+   _connectionLost: countConnections -= 1. Requests are valid; a refused peer is dropped and its
+   transport reports the loss at once. *)
+Inductive conn_status := KOpen | KGone.
+Inductive fop := FOpen | FLose (k : nat).
+Record fstate := { f_count : N; f_conns : list conn_status }.
+
+Fixpoint set_gone (k : nat) (l : list conn_status) : list conn_status :=
+  match l, k with
+  | [], _ => []
+  | _ :: r, O => KGone :: r
+  | x :: r, S k' => x :: set_gone k' r
+  end.
+
+Definition f_step (mx : N) (st : fstate) (o : fop) : fstate :=
+  match o with
+  | FOpen =>
+      let cnt := f_count st + 1 in
+      if (0 <? mx) && (mx <? cnt)
+      then {| f_count := cnt - 1; f_conns := f_conns st ++ [KGone] |}       (* 503 + drop + connectionLost *)
+      else {| f_count := cnt; f_conns := f_conns st ++ [KOpen] |}
+  | FLose k =>
+      match nth_error (f_conns st) k with
+      | Some KOpen => {| f_count := f_count st - 1; f_conns := set_gone k (f_conns st) |}
+      | _ => st                                                             (* already gone: connectionLost is not repeated *)
+      end
+  end.
+
+Definition f_init : fstate := {| f_count := 0; f_conns := [] |}.
+Definition f_run (mx : N) (ops : list fop) : fstate := fold_left (f_step mx) ops f_init.
+Definition n_open (l : list conn_status) : N := N.of_nat (length (filter (fun s => match s with KOpen => true | KGone => false end) l)).
